@@ -62,12 +62,10 @@ impl InferShapes for Slice {
                     && let Some(SymExpr::Value(step)) = step
                     && let SymExpr::Value(size) = dims[axis]
                 {
-                    let end = match *end {
-                        i32::MAX => None,
-                        end => Some(end as isize),
-                    };
-
-                    let range = SliceRange::new(*start as isize, end, *step as isize);
+                    // `SliceRange` clamps out-of-range endpoints the same way the
+                    // operator does, including `i32::MAX` / `i32::MIN` ends used
+                    // for ranges that are unbounded in the direction of `step`.
+                    let range = SliceRange::new(*start as isize, Some(*end as isize), *step as isize);
 
                     // When slicing a symbolic vec along axis 0, the result can
                     // also be a symbolic vec.
